@@ -24,6 +24,7 @@ def run_property(prop, tier, seed, quiet=False, only_key=None):
         ctx = report.Ctx(model, prop, tier)
         mod = importlib.import_module(f"psa.rules.{prop.lower()}")
         info = mod.run(ctx) or {}
+        _closed_world(model, prop)
         if tier == 'thorough' and hasattr(mod, 'thorough'):
             info.update(mod.thorough(ctx) or {})
         selftest = None
@@ -90,6 +91,29 @@ def run_property(prop, tier, seed, quiet=False, only_key=None):
         if selftest is not None:
             print(f"  selftest: fired {selftest['fired']} silent {selftest['silent']} skipped {selftest['skipped']}")
     return 1 if nviol else 0
+
+
+COPY_PROTOCOL = ('__deepcopy__', '__copy__', '__reduce__', '__reduce_ex__', '__getstate__', '__setstate__', '__getnewargs__',
+                 '__getnewargs_ex__')
+
+
+def _closed_world(model, prop):
+    """The summaries of copy / deepcopy in the trusted base hold for classes that leave the copy protocol alone.  A class
+    that defines one of its hooks makes "a deep copy" mean what that method does: the verdicts of this run would rest on a
+    summary that no longer describes the code, so the run ends without a verdict (violations found up to here are still
+    reported).  C04 is exempt: its ownership analysis reads the hook's body like any other method."""
+    if prop == 'C04':
+        return
+    from .model import AnalysisError
+    import ast as _ast
+    for ci in model.classes.values():
+        for m in ci.node.body:
+            names = [m.name] if isinstance(m, (_ast.FunctionDef, _ast.AsyncFunctionDef)) else \
+                [t.id for t in getattr(m, 'targets', []) if isinstance(t, _ast.Name)]
+            for nm in names:
+                if nm in COPY_PROTOCOL:
+                    raise AnalysisError(f"closed-world assumption void: {ci.name}.{nm} (line {m.lineno}) redefines the copy protocol; "
+                                        f"the deepcopy / copy summaries of the trusted base do not describe this class")
 
 
 def _partial(prop, ctx):
